@@ -850,9 +850,9 @@ Proof.
   intros H. destruct (tokenize_shape _ _ _ _ _ H) as (ts & i & A & B & _). exists ts, i. split; assumption.
 Qed.
 
-(* size limit: above the limit the input is rejected with E1006 at 1:0; at or below it the limit plays no role *)
+(* size limit: above the limit the input is rejected with E1006 at 1:1; at or below it the limit plays no role *)
 Theorem size_limit_reject max_in max_tok bs :
-  max_in < N.of_nat (length bs) -> tokenize_with max_in max_tok bs = Err E_InputTooLarge 1 0.
+  max_in < N.of_nat (length bs) -> tokenize_with max_in max_tok bs = Err E_InputTooLarge 1 1.
 Proof. intros H. unfold tokenize_with. apply N.ltb_lt in H. rewrite H. reflexivity. Qed.
 
 Theorem size_limit_exact m1 m2 max_tok bs :
